@@ -73,3 +73,69 @@ func Reachable(v reflect.Value, f func(reflect.Value)) {
 	}
 	walk(v, 0)
 }
+
+// Fill sets v (a settable value) to arbitrary non-zero content.  depth bounds
+// nesting; tag makes strings distinguishable.
+func Fill(v reflect.Value, tag string, depth int) {
+	if !v.CanSet() {
+		return
+	}
+	t := v.Type()
+	switch t.Kind() {
+	case reflect.String:
+		v.SetString("dirty_" + tag)
+	case reflect.Bool:
+		v.SetBool(true)
+	case reflect.Int, reflect.Int8, reflect.Int16, reflect.Int32, reflect.Int64:
+		v.SetInt(7)
+	case reflect.Uint, reflect.Uint8, reflect.Uint16, reflect.Uint32, reflect.Uint64:
+		v.SetUint(7)
+	case reflect.Float32, reflect.Float64:
+		v.SetFloat(1.5)
+	case reflect.Ptr:
+		if depth <= 0 {
+			if t.Elem().Kind() != reflect.Struct {
+				nv := reflect.New(t.Elem())
+				Fill(nv.Elem(), tag, 0)
+				v.Set(nv)
+			}
+			return
+		}
+		nv := reflect.New(t.Elem())
+		Fill(nv.Elem(), tag, depth-1)
+		v.Set(nv)
+	case reflect.Struct:
+		for i := 0; i < v.NumField(); i++ {
+			if t.Field(i).PkgPath != "" {
+				continue
+			}
+			Fill(v.Field(i), tag+"."+t.Field(i).Name, depth-1)
+		}
+	case reflect.Slice:
+		e := reflect.New(t.Elem()).Elem()
+		Fill(e, tag, depth-1)
+		v.Set(reflect.Append(reflect.MakeSlice(t, 0, 2), e))
+	case reflect.Map:
+		m := reflect.MakeMap(t)
+		k := reflect.New(t.Key()).Elem()
+		e := reflect.New(t.Elem()).Elem()
+		Fill(k, tag, 0)
+		Fill(e, tag, depth-1)
+		m.SetMapIndex(k, e)
+		v.Set(m)
+	case reflect.Interface:
+		if t.NumMethod() == 0 {
+			v.Set(reflect.ValueOf("dirty_" + tag))
+			return
+		}
+		id := reflect.ValueOf(&ast.Identifier{Name: "dirty_" + tag, Table: "dirty"})
+		if id.Type().Implements(t) {
+			v.Set(id)
+			return
+		}
+		st := reflect.ValueOf(&ast.SelectStatement{Distinct: true, TableName: "dirty_" + tag, Columns: []ast.Expression{&ast.Identifier{Name: "dirty"}}})
+		if st.Type().Implements(t) {
+			v.Set(st)
+		}
+	}
+}
